@@ -352,6 +352,40 @@ S!(c03_scan2_nofilter_load, 2, scan2(74, 80, 0, false, false, true, false, false
 //@ bounds: sizes (74, 80), link filter selecting only the SECOND packet (first skipped by the filter loop), payloads loaded, file-like reader: delivered offset must be the second packet's
 S!(c03_scan2_link_second, 2, scan2(74, 80, 1, false, false, false, true, false));
 
+/// a packet the filter does NOT select carries an offset_to_next outside 64..=10064: the scan must end with the
+/// documented fatal error (InvalidData) instead of following the offset (seek backwards / endless loop / panic)
+fn skipped_bad_offset(bad: u16, skip: bool, pipe: bool) {
+    let mut d = stream2(74, 80, false, true);
+    d[8] = bad as u8;
+    d[9] = (bad >> 8) as u8;
+    let cfg = mk_filter(1, LINK_A as u16, skip);
+    let reader = MemReader::<N> { data: d, len: 154, pos: 0, pipe };
+    let mut sc = InputScanner::new(&cfg, Box::new(reader), None);
+    let p: u64 = kani::any();
+    kani::assume(p > 0 && p < (1u64 << 40));
+    sc.tracker.update_mem_address(p);
+    let r = sc.load_cdp::<RdhCru>();
+    assert!(r.is_err(), "a packet was delivered although the chain is broken by an invalid offset_to_next in a skipped packet");
+    assert!(r.as_ref().err().unwrap().kind() == std::io::ErrorKind::InvalidData, "invalid offset_to_next in a skipped packet is not the documented fatal InvalidData error");
+    core::mem::forget(r);
+    core::mem::forget(sc);
+    kani::cover!(d[70] == 0x5A, "arbitrary payload bytes");
+}
+
+//@ harness: c04_step_skipped_bad_offset props=C04,C03 tier=quick class=functional covers=1 mem=14 timeout=1800 est=200 args=-Z,restrict-vtable
+//@ bounds: ONE load_cdp from arbitrary P with a link filter; the first packet is NOT selected and its offset_to_next is 0 / 63 / 10065 (both sides of the accepted range; contents otherwise symbolic), file-like reader, payloads loaded: Err(InvalidData), no panic, no seek
+S!(c04_step_skipped_bad_offset, 2, {
+    skipped_bad_offset(0, false, false);
+    skipped_bad_offset(63, false, false);
+    skipped_bad_offset(10065, false, false);
+});
+//@ harness: c04_step_skipped_bad_offset_pipe props=C04,C03 tier=thorough class=functional covers=1 mem=14 timeout=1800 est=200 args=-Z,restrict-vtable
+//@ bounds: same on a pipe-like reader with payloads skipped (offsets 0 and 63)
+S!(c04_step_skipped_bad_offset_pipe, 2, {
+    skipped_bad_offset(0, true, true);
+    skipped_bad_offset(63, true, true);
+});
+
 //@ harness: c03_offset_range props=C03,C04 tier=quick class=functional covers=2 mem=8 timeout=600 est=40
 //@ bounds: all 2^512 headers: sanity_check_offset_next accepts exactly offset_to_next in 64..=10064
 #[kani::proof]
